@@ -60,6 +60,27 @@ func c14Exec(input string) (obs string) {
 		return "err:other:" + hx.Hex([]byte(err.Error()))
 	}
 	defer m.CleanUp()
+	// Usage history: PALS scans both strands (and callers scan many queries) with ONE Filter.
+	// Half of the cases (chosen by a hash of the input, so a case replays exactly) first run a
+	// warm-up scan of another query through the same Filter and discard its hits; the property
+	// is per scan, so the observation must not depend on what the Filter did before.
+	if c14Warm(input) {
+		if mw, werr := morass.New(filter.Hit{}, "verif-c14w-", "", 1<<14, false); werr == nil {
+			src := f[8]
+			if src == "=" {
+				src = f[7]
+			}
+			wl := append([]byte(nil), hx.Unhex(src)...)
+			for i, j := 0, len(wl)-1; i < j; i, j = i+1, j-1 {
+				wl[i], wl[j] = wl[j], wl[i]
+			}
+			func() {
+				defer func() { recover() }()
+				flt.Filter(c10Seq(alphabet.DNA, wl), false, false, mw)
+			}()
+			mw.CleanUp()
+		}
+	}
 	if err := flt.Filter(query, self, comp, m); err != nil {
 		switch {
 		case strings.Contains(err.Error(), "TubeOffset < MaxError"):
@@ -96,6 +117,15 @@ func c14Exec(input string) (obs string) {
 		parts[i] = strconv.Itoa(h.From) + "." + strconv.Itoa(h.To) + "." + strconv.Itoa(h.Diagonal)
 	}
 	return "ok " + orDash(parts, ",")
+}
+
+// c14Warm decides, from the input alone, whether the scan is preceded by a warm-up scan.
+func c14Warm(input string) bool {
+	h := uint32(2166136261)
+	for i := 0; i < len(input); i++ {
+		h = (h ^ uint32(input[i])) * 16777619
+	}
+	return h&1 == 1
 }
 
 // ---- generator ----
